@@ -150,6 +150,9 @@ def parse_one_request(data: bytes, pos: int, limits: dict):
     else:
         m = _ABS.fullmatch(target)
         if m is None:
+            if re.match(rb"[0-9+.\-][A-Za-z0-9+.\-]*://", target):
+                # would be absolute-form but for the first character of the scheme (RFC 3986 3.1: ALPHA)
+                raise Rej("scheme_first_char_not_alpha")
             raise Rej("bad_target_form")
         auth = target.split(b"://", 1)[1]
         for sep in (b"/", b"?", b"#"):
